@@ -32,7 +32,8 @@ RULE = ('scenarios: seeded singlets/doublets (+plane window) with ideal and cata
         'non-trivial = at least one finite operand value that differs from the nominal one')
 PARTIAL = [
     'reset_restores / row_is_fresh / ends_nominal are proved for any lens type whose variable handles satisfy the store laws and '
-    'with Optic.update() acting as the identity (no pickups/solves); with pickups the statement is refuted (finding)',
+    'whose Optic.update() satisfies update_laws (it only rewrites derived coordinates - pickup targets, solved thicknesses - as '
+    'a function of the others, and the nominal lens is up to date); both sets of laws are hypotheses',
     'the store laws are not proved for the concrete lens (record fields and set_thickness arithmetic): they are hypotheses, '
     'validated by execution only; only the scale/inverse_scale round trip is proved (exact reals)',
     'nan_operand_row: that a failed ray yields NaN is a property of the operands (not modelled); independence of later rows is '
@@ -424,7 +425,7 @@ Definition checks : list bool :=
       all2 (fun (rw : row (O:=FOps)) v => close_list tolV (r_pert rw) v) rows i_values && all2 (fun (rw : row (O:=FOps)) w => nat_list_eqb (r_which rw) w) rows i_which;
       all2 (fun (rw : row (O:=FOps)) c => close_list tolS (r_comp rw) c) rows i_comp;
       close_list tolS (evf (lens sf)) i_after_run;
-      close_list tolS (evf (treset vs pv cv (lens sf))) i_after_reset;
+      close_list tolS (evf (treset vs up pv cv (lens sf))) i_after_reset;
       close_list tolV (map (@vinit _ _) (pv ++ cv)) i_init;
       p6; p7; fresh_ok;
       Nat.eqb (List.length rows) (List.length i_states) ]
